@@ -998,7 +998,7 @@ PROPS["C17"] = {
     ],
     "assumptions": [
         "labels are used as locations only when the command grammar can name them (I14): `b+1`, `o-3`, `x+2` are integers",
-        "no comment between a data directive and its operand (the preprocessor does not skip comments there)",
+        "the C17 generator writes no comment between a data directive and its operand (the theorem and the C01 generator cover it)",
         "ESC characters in statement text are not generated (minimal mode strips ANSI sequences)",
     ],
 }
